@@ -1515,6 +1515,106 @@ def _alias_candidates(block):
             yield k, st
 
 
+def _multi_alias(fn):
+    """a local bound SEVERAL times, always to the same plain attribute path rooted at `self` (a bound method looked up once per
+    phase: before the first loop, again inside the generation loop), while nothing in the function stores to the path, a
+    prefix of it or its root: every read of the local is a read of the path"""
+    params = [a.arg for a in fn.args.args]
+    if not params:
+        return False
+    binds = {}
+    for st in ast.walk(fn):
+        if isinstance(st, ast.Assign) and len(st.targets) == 1 and isinstance(st.targets[0], ast.Name):
+            binds.setdefault(st.targets[0].id, []).append(st)
+    other_stores = {}
+    for n in ast.walk(fn):
+        if isinstance(n, ast.Name) and not isinstance(n.ctx, ast.Load):
+            other_stores[n.id] = other_stores.get(n.id, 0) + 1
+    done = False
+    for x, sts in binds.items():
+        if len(sts) < 2 or other_stores.get(x, 0) != len(sts) or x in params:
+            continue
+        pp = [_pure_path(st.value) for st in sts]
+        if any(q is None or q[1] for q in pp) or len({q[0] for q in pp}) != 1:
+            continue
+        path = pp[0][0]
+        root = path.split(".")[0]
+        if root != params[0]:
+            continue
+        bad = False
+        for n in ast.walk(fn):
+            if isinstance(n, ast.Name) and n.id == root and not isinstance(n.ctx, ast.Load):
+                bad = True
+            elif isinstance(n, (ast.Attribute, ast.Subscript)) and not isinstance(n.ctx, ast.Load):
+                q = access_path(n)
+                if q is not None and (q == path or path.startswith(q + ".")):
+                    bad = True
+            elif isinstance(n, (ast.FunctionDef, ast.Lambda)) and n is not fn and any(isinstance(m, ast.Name) and m.id == x for m in ast.walk(n)):
+                bad = True
+        first = min(st.lineno for st in sts)
+        if bad or any(isinstance(n, ast.Name) and n.id == x and isinstance(n.ctx, ast.Load) and getattr(n, "lineno", first) < first for n in ast.walk(fn)):
+            continue
+        proto = sts[0].value
+
+        class S(ast.NodeTransformer):
+            def visit_Name(self, n):
+                if n.id == x and isinstance(n.ctx, ast.Load):
+                    return ast.copy_location(copy.deepcopy(proto), n)
+                return n
+
+            def visit_Assign(self, n):
+                if any(n is st for st in sts):
+                    return ast.copy_location(ast.Pass(), n)
+                return self.generic_visit(n)
+        S().visit(fn)
+        ast.fix_missing_locations(fn)
+        STATS["multi_alias"] = STATS.get("multi_alias", 0) + 1
+        done = True
+    return done
+
+
+def _split_rebinds(fn):
+    """a local re-used for one alias after another in the body of the function (`append = A.append` ... `append = B.append`
+    ...): each stretch between two bindings gets its own name, so that every one of them is a single-binding alias"""
+    body = fn.body
+    cand = {}
+    for i, st in enumerate(body):
+        if isinstance(st, ast.Assign) and len(st.targets) == 1 and isinstance(st.targets[0], ast.Name) and _pure_path(st.value) is not None:
+            cand.setdefault(st.targets[0].id, []).append(i)
+    stores = {}
+    for n in ast.walk(fn):
+        if isinstance(n, ast.Name) and not isinstance(n.ctx, ast.Load):
+            stores[n.id] = stores.get(n.id, 0) + 1
+    names = {n.id for n in ast.walk(fn) if isinstance(n, ast.Name)} | {a.arg for a in ast.walk(fn.args) if isinstance(a, ast.arg)}
+    done = False
+    for x, idxs in cand.items():
+        if len(idxs) < 2 or stores.get(x, 0) != len(idxs):
+            continue
+        if any(isinstance(n, ast.Name) and n.id == x for st in body[:idxs[0]] for n in ast.walk(st)):
+            continue
+        if any(isinstance(n, (ast.FunctionDef, ast.Lambda)) and any(isinstance(m, ast.Name) and m.id == x for m in ast.walk(n)) for st in body for n in ast.walk(st)):
+            continue
+        for k, i in enumerate(idxs):
+            new = "%s__%d" % (x, k + 1)
+            while new in names:
+                new += "_"
+            names.add(new)
+            end = idxs[k + 1] if k + 1 < len(idxs) else len(body)
+            body[i].targets[0].id = new
+            for st in body[i + 1:end]:
+                for n in ast.walk(st):
+                    if isinstance(n, ast.Name) and n.id == x:
+                        n.id = new
+            # the value of the next binding may read the old name
+            if k + 1 < len(idxs):
+                for n in ast.walk(body[idxs[k + 1]].value):
+                    if isinstance(n, ast.Name) and n.id == x:
+                        n.id = new
+        STATS["split_rebind"] = STATS.get("split_rebind", 0) + 1
+        done = True
+    return done
+
+
 def _unalias_once(fn):
     """A local bound exactly once to a plain attribute path (`job = self.job`, `compare =
     self.dominance.compare`, `lo = parameter['bounds']`) and read only by the statements that follow it
@@ -2041,6 +2141,9 @@ def normalize_function(fn):
     _strip_annotations(fn)
     _coalesce_copies(fn)
     _len_temps(fn)
+    if UNALIAS[0]:
+        _multi_alias(fn)
+        _split_rebinds(fn)
     _defs_to_lambdas(fn)
     if UNALIAS[0]:
         _unalias(fn)
